@@ -629,7 +629,8 @@ impl Prop for C20 {
         }
     }
     fn gen(&self, rng: &mut Rng, _tier: Tier, _idx: u64) -> Case {
-        let n = *rng.pick(&[0usize, 1, 1, 2, 2, 3, 3, 4, 5, 6]);
+        // mostly the statement's 0..6 layers; now and then dozens
+        let n = if rng.chance(1, 40) { 7 + rng.usize(18) } else { *rng.pick(&[0usize, 1, 1, 2, 2, 3, 3, 4, 5, 6]) };
         let mut layers: Vec<Layer> = vec![];
         for i in 0..n {
             if i > 0 && rng.chance(1, 5) {
@@ -679,7 +680,9 @@ impl Prop for C20 {
             4 => Chunk::Rand { max: 16 + rng.below(1024) as u32, seed: rng.next() },
             _ => Chunk::Cycle(vec![511, 1, 512, 100, 7]),
         };
-        let (chunk_r, chunk_w) = if mode < 4 { (Chunk::Whole, Chunk::Whole) } else { (chunk(rng), chunk(rng)) };
+        // reading one layer makes the archive code walk the whole tar file: with dozens of layers only whole transfers
+        // keep a run within its time budget
+        let (chunk_r, chunk_w) = if mode < 4 || layers.len() > 6 { (Chunk::Whole, Chunk::Whole) } else { (chunk(rng), chunk(rng)) };
         let clock_jumps = (0..n_ops + 2).map(|_| if rng.chance(1, 3) { *rng.pick(&[3600i64, -3600, 86_400 * 365, -86_400 * 400, 1, -1, 13 * 3600 + 1800]) } else { 0 }).collect();
         let foreign = if rng.chance(1, 12) { 1 + rng.below(2) as u8 } else { 0 };
         Case { name, layers, config: rng.chance(1, 3), via_dir: rng.chance(1, 3), foreign, faults, chunk_r, chunk_w, clock_jumps, hash_seed: rng.next(), read_tz: if rng.chance(1, 4) { 1 + rng.below(5) as u8 } else { 0 } }
